@@ -31,6 +31,7 @@ var ghost struct {
 	ioArg  int
 	ioRet  int
 	ioErr  error
+	readSum int // bytes delivered so far by Read calls made through the io.Reader interface (C19 ReadFrom)
 
 	// delivery trace (C02/C03/C13): one entry per Write that reached a destination through the
 	// LogWriter interface; told[d] is the severity destination d was last told through
@@ -2518,6 +2519,7 @@ func specTellable(m LogWriter) bool {
 
 
 
+
 // ---- generated by /verif/tools/gen_auto.py: synthesized contracts for the no-panic sweep of printImpl's call tree
 //@ func convertLevelToLogSlog
 //@   props C02
@@ -2749,6 +2751,11 @@ func specTellable(m LogWriter) bool {
 //@   ensures [C19.reslice-yes] implies(n <= old(cap(s.buf) - len(s.buf)), result1 && result0 == old(len(s.buf)) && len(s.buf) == old(len(s.buf)) + n && samearray(s.buf, old(s.buf)) && cap(s.buf) == old(cap(s.buf)))
 //@   ensures [C19.reslice-no] implies(n > old(cap(s.buf) - len(s.buf)), !result1 && result0 == 0 && s.buf == old(s.buf))
 
+//@ func growSlice$1
+//@   props C19 C02
+//@   maypanic
+//@   at panic assert [C19.toolarge-value] value == ErrTooLarge
+
 //@ func growSlice
 //@   props C19 C02
 //@   ignoredefer
@@ -2928,7 +2935,8 @@ func specTellable(m LogWriter) bool {
 //@   maypanic
 //@   ensures [C19.readfrom-keep] 0 <= s.off && s.off <= len(s.buf) && len(s.buf) - s.off == old(len(s.buf) - s.off) + n && n >= 0
 //@   ensures [C19.readfrom-err] err != io.EOF && s.lastRead == opInvalid
-//@   loop 1 invariant [C19.readfrom-inv] 0 <= s.off && s.off <= len(s.buf) && len(s.buf) - s.off == old(len(s.buf) - s.off) + n && n >= 0 && s.lastRead == opInvalid && !isnil(io.EOF)
+//@   ensures [C19.readfrom-all] n == ghost.readSum - old(ghost.readSum)
+//@   loop 1 invariant [C19.readfrom-inv] 0 <= s.off && s.off <= len(s.buf) && len(s.buf) - s.off == old(len(s.buf) - s.off) + n && n >= 0 && s.lastRead == opInvalid && !isnil(io.EOF) && n == ghost.readSum - old(ghost.readSum)
 
 //@ func (*PrintCtx).AvailableBuffer
 //@   props C19 C02
@@ -2982,6 +2990,11 @@ func specTellable(m LogWriter) bool {
 //@   assigns b.buf
 //@   ensures [C19.reslice-yes] implies(n <= old(cap(b.buf) - len(b.buf)), result1 && result0 == old(len(b.buf)) && len(b.buf) == old(len(b.buf)) + n && samearray(b.buf, old(b.buf)) && cap(b.buf) == old(cap(b.buf)))
 //@   ensures [C19.reslice-no] implies(n > old(cap(b.buf) - len(b.buf)), !result1 && result0 == 0 && b.buf == old(b.buf))
+
+//@ func bytes::growSlice$1
+//@   props C19
+//@   maypanic
+//@   at panic assert [C19.toolarge-value] value == ErrTooLarge
 
 //@ func bytes::growSlice
 //@   props C19
@@ -3162,7 +3175,8 @@ func specTellable(m LogWriter) bool {
 //@   maypanic
 //@   ensures [C19.readfrom-keep] 0 <= b.off && b.off <= len(b.buf) && len(b.buf) - b.off == old(len(b.buf) - b.off) + n && n >= 0
 //@   ensures [C19.readfrom-err] err != io.EOF && b.lastRead == opInvalid
-//@   loop 1 invariant [C19.readfrom-inv] 0 <= b.off && b.off <= len(b.buf) && len(b.buf) - b.off == old(len(b.buf) - b.off) + n && n >= 0 && b.lastRead == opInvalid && !isnil(io.EOF)
+//@   ensures [C19.readfrom-all] n == ghost.readSum - old(ghost.readSum)
+//@   loop 1 invariant [C19.readfrom-inv] 0 <= b.off && b.off <= len(b.buf) && len(b.buf) - b.off == old(len(b.buf) - b.off) + n && n >= 0 && b.lastRead == opInvalid && !isnil(io.EOF) && n == ghost.readSum - old(ghost.readSum)
 
 //@ func bytes::(*Buffer).AvailableBuffer
 //@   props C19
